@@ -52,6 +52,8 @@ def registry_ok(names, behs, ks, fi, typed, v):
             model[name] = (beh, k)
         f = POOL[fi]
         el = String(format=f) if typed else Element(format=f)
+        if isinstance(v, str) and f not in model and f in ("uuid", "date-time"):
+            return True  # the built-in checker decides: subject of the built-in harnesses (uuid.py / dateutil on a symbolic str do not exhaust)
         with warnings.catch_warnings(record=True) as w:
             warnings.simplefilter("always")
             acc = accepts(el, v)
@@ -61,8 +63,6 @@ def registry_ok(names, behs, ks, fi, typed, v):
                 return (not acc) and nwarn == 0
             return acc and nwarn == 0
         if f not in model:
-            if f in ("uuid", "date-time"):
-                return nwarn == 0  # built-in checker consulted; its verdict is the subject of the built-in harnesses
             return acc and nwarn == 1
         beh, k = model[f]
         expected = True if beh == 0 else (False if beh == 1 else len(v) > k)
@@ -101,6 +101,12 @@ def uuid_ok(p1, p2, d1, d2, braces):
 
 
 def ts(year=2020, month=6, day=15, hour=12, minute=30, second=45, frac="", t="T", off="Z"):
+    from vf.common import concretize_int as ci, concretize_digits
+
+    # integer -> text conversion happens on concretised fields (dateutil needs a concrete string anyway);
+    # the solver enumerates the field's range by equality forks
+    year, month, day = concretize_digits(year, 4), ci(month, 1, 12), ci(day, 1, 31)
+    hour, minute, second = ci(hour, 0, 23), ci(minute, 0, 59), ci(second, 0, 60)
     return "%04d-%02d-%02d%s%02d:%02d:%02d%s%s" % (year, month, day, t, hour, minute, second, frac, off)
 
 
@@ -121,14 +127,16 @@ def harnesses(ctx) -> List[H]:
     hs: List[H] = []
     VAL = "Union[str, int, bool, None, List[int]]"
     VPRE = ["not isinstance(v, str) or len(v) <= 3", "not isinstance(v, list) or len(v) <= 2"]
-    for K, tier, to in ((1, "quick", 200), (2, "quick", 400), (3, "thorough", 900)):
-        pre = [f"len(names) == {K}", f"len(behs) == {K}", f"len(ks) == {K}", "all(0 <= n < 4 for n in names)", "all(0 <= b < 3 for b in behs)", "0 <= fi < 4"] + VPRE
-        hs.append(mk(f"c16_registry_k{K}", f"names: List[int], behs: List[int], ks: List[int], fi: int, typed: bool, v: {VAL}", pre,
-                     "return registry_ok(names, behs, ks, fi, typed, v)", tier=tier, timeout=to, group="registry",
-                     covers=f"{K} registrations over names {POOL} x behaviours (True, False, len>k), then String/Element(format=f) on any JSON value"))
-    hs.append(mk("c16_registry_k0", f"fi: int, typed: bool, v: {VAL}", ["0 <= fi < 4"] + VPRE, "return registry_ok([], [], [], fi, typed, v)", timeout=100, group="registry",
+    for K, tier, to in ((1, "quick", 200), (2, "thorough", 900)):
+        for fi in range(4):
+            for typed in (True, False):
+                pre = [f"len(names) == {K}", f"len(behs) == {K}", f"len(ks) == {K}", "all(0 <= n < 4 for n in names)", "all(0 <= b < 3 for b in behs)"] + VPRE
+                hs.append(mk(f"c16_registry_k{K}_f{fi}_{'string' if typed else 'element'}", f"names: List[int], behs: List[int], ks: List[int], v: {VAL}", pre,
+                             f"return registry_ok(names, behs, ks, {fi}, {typed}, v)", tier=tier, timeout=to, group="registry",
+                             covers=f"{K} registrations over names {POOL} x behaviours (True, False, len>k), then {'String' if typed else 'Element'}(format={POOL[fi]!r}) on any JSON value"))
+    hs.append(mk("c16_registry_k0", f"fi: int, typed: bool, v: {VAL}", ["0 <= fi < 4"] + VPRE, "return registry_ok([], [], [], fi, typed, v)", timeout=300, group="registry",
                  covers="no registration: unregistered names warn-and-accept"))
-    hs.append(mk("c16_symbolic_name", "c: str, beh: bool, v: str", ["len(c) == 1", "len(v) <= 2"], "return symbolic_name_ok(c, beh, v)", timeout=200, group="registry", expect="unknown",
+    hs.append(mk("c16_symbolic_name", "c: str, beh: bool, v: str", ["len(c) == 1", "len(v) <= 2"], "return symbolic_name_ok(c, beh, v)", timeout=200, group="registry", expect="unknown", tier="thorough",
                  covers="format name = any 1-char string (dict lookup realises the name)"))
     hs.append(mk("c16__reject", f"names: List[int], behs: List[int], ks: List[int], fi: int, v: str", ["len(names) == 1", "len(behs) == 1", "len(ks) == 1", "0 <= names[0] < 4", "0 <= behs[0] < 3", "0 <= fi < 4", "len(v) <= 3"],
                  "from vf.common import String, accepts\nwith fresh_registry() as fc:\n    fc.register(POOL[names[0]])(lambda s, k=ks[0]: len(s) > k)\n    return accepts(String(format=POOL[fi]), v) or POOL[fi] != POOL[names[0]]", kind="witness", timeout=60, group="registry"))
@@ -148,8 +156,9 @@ def harnesses(ctx) -> List[H]:
         ("hour", "hour: int", ["0 <= hour <= 23"], "ts(hour=hour)", "quick"),
         ("minute", "minute: int", ["0 <= minute <= 59"], "ts(minute=minute)", "quick"),
         ("second", "second: int", ["0 <= second <= 60"] + ex_leap, "ts(hour=23, minute=59, second=second)", "quick"),
-        ("fraction", "n: int, d: int", ["1 <= n <= 9", "0 <= d <= 9"], "ts(frac='.' + str(d) * n)", "quick"),
-        ("offset", "sign: bool, hh: int, mm: int", ["0 <= hh <= 23", "0 <= mm <= 59"], "ts(off=('+' if sign else '-') + '%02d:%02d' % (hh, mm))", "quick"),
+        ("fraction", "n: int, d: int", ["1 <= n <= 9", "0 <= d <= 9"], "ts(frac='.' + str(concretize_int(d, 0, 9)) * concretize_int(n, 1, 9))", "quick"),
+        ("offset_hours", "sign: bool, hh: int", ["0 <= hh <= 23"], "ts(off=('+' if sign else '-') + '%02d:00' % concretize_int(hh, 0, 23))", "quick"),
+        ("offset_minutes", "sign: bool, mm: int", ["0 <= mm <= 59"], "ts(off=('+' if sign else '-') + '05:%02d' % concretize_int(mm, 0, 59))", "quick"),
         ("case", "lt: bool, lz: bool", [], "ts(t=('t' if lt else 'T'), off=('z' if lz else 'Z'))", "quick"),
     ]
     for q in range(4):
